@@ -22,6 +22,8 @@ def run(tier, seed, only=None):
     units = UU.step_units((ID,)) + UU.coupled_order_units((ID,))
     units += [u for u in UU.update_units((ID,)) if u.name in ('Update.parse', 'Update.parse_prefix_list')]
     units += [u for u in UU.units((ID,)) if u.name in ('ClusterList.parse', 'Community.parse', 'ASPath.parse', 'LargeCommunity.parse')]
+    from . import C14
+    units.append(C14.unit_open_parse())        # OPEN capabilities: packagings incl. one capability split over several TLVs
     for u in units:
         if only and u.name not in only:
             continue
